@@ -12,6 +12,7 @@ import (
 	"math"
 	"os"
 	"strconv"
+	"strings"
 
 	rt "github.com/arnodel/golua/runtime"
 	"verifharness/hlib"
@@ -184,7 +185,27 @@ func main() {
 			uop := unops[rng.Below(len(unops))]
 			hlib.Emit(uop.name, hlib.Enc(x), "=", e.call(e.un[uop.name], x))
 		}
+	case "strings":
+		e.stringsMode(len(os.Args) > 2 && os.Args[2] == "thorough")
 	case "replay":
+		if os.Args[2] == "literal" {
+			x, err := hlib.Dec(os.Args[3])
+			if err != nil {
+				fmt.Fprintln(os.Stderr, err)
+				os.Exit(2)
+			}
+			hlib.Emit("literal", os.Args[3], "=", e.literal(x.AsString()))
+			return
+		}
+		if un, ok := strOps[os.Args[2]]; ok {
+			x, err := hlib.Dec(os.Args[3])
+			if err != nil {
+				fmt.Fprintln(os.Stderr, err)
+				os.Exit(2)
+			}
+			hlib.Emit(os.Args[2], os.Args[3], "=", e.call(e.un[un], x))
+			return
+		}
 		x, err := hlib.Dec(os.Args[3])
 		if err != nil {
 			fmt.Fprintln(os.Stderr, err)
@@ -244,5 +265,228 @@ func randNum(rng *hlib.Rng) rt.Value {
 		return fv(float64(int64(rng.Below(2001))-1000) / 8)
 	default:
 		return iv(int64(rng.Below(201)) - 100)
+	}
+}
+
+// ---------------------------------------------------------------------------
+// numeral strings: tonumber(s), s + 0 and the literal `return <s>` through the
+// real scanner / parser / StringToNumber.
+
+// line op -> compiled unary function used for it
+var strOps = map[string]string{"tonumberS": "tonumber", "strarithS": "strarith"}
+
+func (e *env) literal(s string) (res string) {
+	defer func() {
+		if p := recover(); p != nil {
+			res = "P"
+		}
+	}()
+	c, err := hlib.Load(e.r, "lit", "return "+s)
+	if err != nil {
+		return "E"
+	}
+	class, vals, _ := hlib.PCall(e.r, rt.FunctionValue(c))
+	switch class {
+	case hlib.OK:
+		if len(vals) != 1 {
+			return "n"
+		}
+		return hlib.Enc(vals[0])
+	case hlib.ERR:
+		return "E"
+	}
+	return "P"
+}
+
+func (e *env) emitString(s string, lit bool) {
+	v := rt.StringValue(s)
+	h := "s" + hlib.Hex(s)
+	hlib.Emit("tonumberS", h, "=", e.call(e.un["tonumber"], v))
+	hlib.Emit("strarithS", h, "=", e.call(e.un["strarith"], v))
+	if lit {
+		hlib.Emit("literal", h, "=", e.literal(s))
+	}
+}
+
+func startsLikeNumeral(s string) bool {
+	if len(s) > 0 && s[0] >= '0' && s[0] <= '9' {
+		return true
+	}
+	return len(s) > 1 && s[0] == '.' && s[1] >= '0' && s[1] <= '9'
+}
+
+var numAlphabet = []byte("019afxX.ep+-_ ni")
+var numAlphabetSmall = []byte("09fx.ep-_")
+
+func (e *env) allStrings(alpha []byte, n int) {
+	buf := make([]byte, n)
+	var rec func(i int)
+	rec = func(i int) {
+		if i == n {
+			s := string(buf)
+			e.emitString(s, startsLikeNumeral(s) && !strings.ContainsAny(s, " +-_"))
+			return
+		}
+		for _, c := range alpha {
+			buf[i] = c
+			rec(i + 1)
+		}
+	}
+	rec(0)
+}
+
+var numCorpus = []string{
+	"+-5", "++5", "-+5", "--5", "+ 5", "1_0.5", "1_0", "0x1_0", "0x1_0p0", "1_0e1", "1__0.5", "_1.5",
+	"0xZZ00000000000000001", "0x-00000000000000001", "0x 0000000000000001", "0x10000000000000000", "0xffffffffffffffffff",
+	"-0xffffffffffffffff", "-0x8000000000000000", "0x7fffffffffffffff", "0x8000000000000000",
+	"\xc2\xa05", "5\xc2\xa0", "\xc2\x855", "\xe2\x80\x835", "\xe3\x80\x805", "\xa05", "5\x00", "\x005", "5\x00 ",
+	"inf", "-inf", "+inf", "Inf", "INF", "infinity", "Infinity", "nan", "NaN", "-nan", "+Infinity", "0xinf", "in.f", "i.nf", "nan.", ".nan", "infe", "einf", "1einf",
+	"0x1p", "0x1p+", "0x1p-", "0xp1", "0x.p1", "0x", "0X", "-0x", "0x.", "0x.8", "0x8.", "0x8.p1", "0x.8p1", "0x1P-2", "0X1.8", "0x1.8p0p0", "0x1e5", "0x1e+5", "0xep1",
+	"1e", "1e+", "1e-", "e1", ".e1", "1.e1", ".5", "5.", ".", "", " ", "\t\n\v\f\r 7 \t\n\v\f\r", "1 2", "- 5", "-5", "+5", "-0", "+0", "-0.0", "0.0", "00", "007", "08", "1e5", "1E5", "1e+5", "1e-5", "1e05",
+	"9223372036854775807", "9223372036854775808", "-9223372036854775808", "-9223372036854775809", "+9223372036854775808", "18446744073709551615", "18446744073709551616",
+	"09223372036854775807", "0009223372036854775808", "9223372036854775807.0", "9223372036854775808e0",
+	"9007199254740993", "9007199254740993.0", "9007199254740992.5", "9007199254740993e0", "0x20000000000001p0", "0x1.00000000000008p0", "0x1.000000000000080000000000000000000001p0", "0x1.fffffffffffff8p0", "0x1.fffffffffffff7ffffffffffffffp0",
+	"1e308", "1.7976931348623157e308", "1.7976931348623158e308", "1.7976931348623159e308", "1e309", "1e400", "-1e400", "1e999999999999999999999", "1e-999999999999999999999", "0e999999999999999999999", "0x1p999999999999999999999", "0x1p-999999999999999999999", "0x0p999999999999999999999",
+	"4.9e-324", "2.4703282292062327e-324", "2.4703282292062328e-324", "2.47032822920623272088284396434110686182529901307162382212792841250337753635104375932649918180817996189898282347722858865463328355177969898199387398005390939063150356595155702263922908583924491051844359318028499365361525003193704576782492193656236698636584807570015857692699037063119282795585513329278343384093519780155312465972635795746227664652728272200563740064854999770965994704540208281662262378573934507363390079677619305775067401763246736009689513405355374585166611342237666786041621596804619144672918403005300575308490487653917113865916462395249126236538818796362393732804238910186723484976682350898633885879256283027559956575244555072551893136908362547791869486679949683240497058210285131854513962138377228261454376934125320985913276672363281251e-324",
+	"2.2250738585072014e-308", "2.2250738585072011e-308", "0x1p-1074", "0x1p-1075", "0x1.000001p-1075", "0x0.8p-1074", "0x1p1023", "0x1p1024", "0x1.fffffffffffffp1023", "0x1.fffffffffffff8p1023", "0x1.fffffffffffff7p1023",
+	"0.1", "0.2", "0.3", "1.5", "123456789012345678901234567890", "0.000000000000000000000000000000000000000000001", "100000000000000000000000.0", "8.5070591730234615865843651857942052864e37",
+	"1e23", "8.41e21", "9e15", "1.0000000000000002", "1.00000000000000011102230246251565404236316680908203125", "1.00000000000000011102230246251565404236316680908203126", "1.00000000000000011102230246251565404236316680908203124",
+	"0b101", "0o17", "0b1e1", "1p5", "1f", "1d", "1L", "1.5f", "0x1.8P0", "１", "٣", "1,5", "1.5.5", "1..5", "1e5.5", "1e5e5",
+}
+
+// random numerals from the Lua numeral grammar
+func genNumeral(rng *hlib.Rng) string {
+	digits := func(alpha string, min, max int) string {
+		n := min + rng.Below(max-min+1)
+		b := make([]byte, n)
+		for i := range b {
+			b[i] = alpha[rng.Below(len(alpha))]
+		}
+		return string(b)
+	}
+	const dec, hex = "0123456789", "0123456789abcdefABCDEF"
+	boundary := []string{"9223372036854775807", "9223372036854775808", "9223372036854775809", "18446744073709551615", "18446744073709551616",
+		"9007199254740992", "9007199254740993", "4503599627370496", "179769313486231570", "17976931348623158", "22250738585072014", "49", "24703282292062327", "24703282292062328"}
+	var s string
+	switch rng.Below(8) {
+	case 0: // decimal integer
+		if rng.Chance(40) {
+			s = boundary[rng.Below(len(boundary))]
+		} else {
+			s = digits(dec, 1, 22)
+		}
+	case 1: // hex integer
+		pre := []string{"0x", "0X"}[rng.Below(2)]
+		if rng.Chance(40) {
+			s = pre + digits("0f8", 0, 3) + []string{"7fffffffffffffff", "8000000000000000", "ffffffffffffffff", "0000000000000001"}[rng.Below(4)]
+		} else {
+			s = pre + digits(hex, 1, 20)
+		}
+	case 2, 3, 4: // decimal float
+		var m string
+		if rng.Chance(30) {
+			m = boundary[rng.Below(len(boundary))]
+			if rng.Chance(50) {
+				k := 1 + rng.Below(len(m)-1)
+				m = m[:k] + "." + m[k:]
+			}
+		} else {
+			switch rng.Below(4) {
+			case 0:
+				m = digits(dec, 1, 20) + "."
+			case 1:
+				m = "." + digits(dec, 1, 20)
+			case 2:
+				m = digits(dec, 1, 20) + "." + digits(dec, 1, 25)
+			default:
+				m = digits(dec, 1, 20)
+			}
+		}
+		s = m
+		if rng.Chance(70) || !strings.Contains(m, ".") {
+			ex := []int{0, 1, 5, 22, 23, 300, 308, 309, 323, 324, 325, 400, 5000}[rng.Below(13)]
+			if rng.Chance(30) {
+				ex = rng.Below(340)
+			}
+			s += []string{"e", "E"}[rng.Below(2)] + []string{"", "+", "-"}[rng.Below(3)] + strconv.Itoa(ex)
+		}
+	default: // hex float
+		pre := []string{"0x", "0X"}[rng.Below(2)]
+		var m string
+		switch rng.Below(4) {
+		case 0:
+			m = digits(hex, 1, 18) + "."
+		case 1:
+			m = "." + digits(hex, 1, 18)
+		case 2:
+			m = digits(hex, 1, 16) + "." + digits(hex, 1, 20)
+		default:
+			m = digits(hex, 1, 18)
+		}
+		if rng.Chance(30) {
+			m = []string{"1.fffffffffffff8", "1.fffffffffffff7", "1.00000000000008", "1.000000000000080000001", "1.00000000000018", "20000000000001", "0.8", "0.80000000000001"}[rng.Below(8)]
+		}
+		s = pre + m
+		if rng.Chance(75) || !strings.Contains(m, ".") {
+			ex := []int{0, 1, 4, 52, 53, 63, 64, 1022, 1023, 1024, 1074, 1075, 1076, 2000}[rng.Below(14)]
+			if rng.Chance(30) {
+				ex = rng.Below(1100)
+			}
+			s += []string{"p", "P"}[rng.Below(2)] + []string{"", "+", "-"}[rng.Below(3)] + strconv.Itoa(ex)
+		}
+	}
+	return s
+}
+
+var corruptChars = []string{"_", "+", "-", " ", ".", "e", "p", "x", "n", "0", "9", "f", "g", "\xc2\xa0", "\x00", "\t", "E", "P", "X", "i", "\n", "\xa0", "'", "z"}
+
+func (e *env) stringsMode(thorough bool) {
+	for _, s := range numCorpus {
+		e.emitString(s, startsLikeNumeral(s))
+	}
+	maxLen := 4
+	if thorough {
+		maxLen = 5
+	}
+	for n := 0; n <= maxLen; n++ {
+		e.allStrings(numAlphabet, n)
+	}
+	if thorough {
+		e.allStrings(numAlphabetSmall, 6)
+	}
+	rng := hlib.NewRng(hlib.Seed() ^ 0x5eed)
+	count := 4000
+	if thorough {
+		count = 100000
+	}
+	ws := []string{"", "", " ", "\t", "\n ", " \v\f\r"}
+	for i := 0; i < count; i++ {
+		num := genNumeral(rng)
+		e.emitString(num, true)
+		sign := []string{"", "", "-", "+"}[rng.Below(4)]
+		dressed := ws[rng.Below(len(ws))] + sign + num + ws[rng.Below(len(ws))]
+		e.emitString(dressed, false)
+		// single-character corruptions of the dressed numeral
+		for k := 0; k < 3; k++ {
+			b := dressed
+			pos := rng.Below(len(b) + 1)
+			c := corruptChars[rng.Below(len(corruptChars))]
+			var m string
+			switch rng.Below(3) {
+			case 0: // insert
+				m = b[:pos] + c + b[pos:]
+			case 1: // replace
+				if pos == len(b) {
+					pos--
+				}
+				m = b[:pos] + c + b[pos+1:]
+			default: // delete
+				if pos == len(b) {
+					pos--
+				}
+				m = b[:pos] + b[pos+1:]
+			}
+			e.emitString(m, startsLikeNumeral(m) && !strings.ContainsAny(m, " \t\n\v\f\r+-"))
+		}
 	}
 }
